@@ -32,14 +32,14 @@ IK = CASE % A.N_INSTR
 PLUG_KINDS = (3, 4, 7)
 PLUG_INSTR = (2, 3, 4, 9, 10, 14, 16)
 REQ_KINDS = (9, 12)
-REQ_INSTR = (1, 15)
+REQ_INSTR = (1, 15, 17)
 PIN_PLUGS = os.environ.get("VF_PIN_PLUGS") == "1"  # quick tier of C10: plugs fixed to LEVEL_2 / electric
 if PIN_PLUGS:
     PLUG_KINDS = ()
     PLUG_INSTR = ()
 S1_RELEVANT = KIND == 6 or IK in (4, 9, 10)
 ICE_RELEVANT = (KIND in PLUG_KINDS or IK in PLUG_INSTR or KIND == 6) and not PIN_PLUGS
-INSTR_TARGET_CELL = {1: 2, 2: 0, 3: 0, 4: 1, 5: 1, 6: 1, 8: 3, 9: 1, 10: 1, 11: 4, 12: 4, 14: 4, 15: 2, 16: 5}
+INSTR_TARGET_CELL = {1: 2, 2: 0, 3: 0, 4: 1, 5: 1, 6: 1, 8: 3, 9: 1, 10: 1, 11: 4, 12: 4, 14: 4, 15: 2, 16: 5, 17: 2}
 
 
 def _relevant_cells():
@@ -101,6 +101,17 @@ def _involved(pre_state, post_state, sim):
     return ids
 
 
+def _plan_stamped(sim2, v_post):
+    """an accepted pooling dispatch records the vehicle on every request of its plan (all of them were required to exist)"""
+    st = v_post.vehicle_state
+    if isinstance(st, A.DispatchPoolingTrip):
+        for rid, _phase in st.trip_plan:
+            r = sim2.requests.get(rid)
+            if r is None or r.dispatched_vehicle != v_post.id:
+                return False
+    return True
+
+
 def _changed(sim, sim2):
     out = set()
     for coll in ("vehicles", "stations", "bases", "requests"):
@@ -150,6 +161,7 @@ def _body(
     w = A.build_world(
         (spec,), tot, g, q, stalls, sg, r0_disp=rd, r0_present=rp, s0_memb=m_s, b0_memb=m_b, r0_memb=m_r, s1_g=s1_ghost,
         s1_memb=(m_s + 1) % 5 if ORACLE == "C10" else 0,
+        pool=(IK == 17),
     )
     if w is None:
         return True
@@ -184,6 +196,8 @@ def _body(
             r = sim2.requests.get(v_post.vehicle_state.request_id)
             if r is None or r.dispatched_vehicle != "v0":
                 return False
+        if accepted and not _plan_stamped(sim2, v_post):
+            return False
         return I.req_ok(sim2, w.vids)
     if ORACLE == "C03":
         # applying an instruction never resolves, creates or loses a request, and cannot divert a
@@ -197,7 +211,7 @@ def _body(
         if isinstance(st0, A.ServicingTrip) and len(st0.route) > 0:
             if v_post.vehicle_state is not st0:
                 return False
-        if isinstance(st0, A.ServicingPoolingTrip) and len(st0.trip_plan) > 0 and IK != 15:
+        if isinstance(st0, A.ServicingPoolingTrip) and len(st0.trip_plan) > 0 and IK not in (15, 17):
             if v_post.vehicle_state is not st0:
                 return False
         return v_post.balance == v_pre.balance
@@ -237,6 +251,8 @@ def _body(
             r = sim2.requests.get(v_post.vehicle_state.request_id)
             if r is None or r.dispatched_vehicle != "v0":
                 return False
+        if not _plan_stamped(sim2, v_post):
+            return False
         # frame: nothing but the vehicle and its old / new targets changes
         return _changed(sim, sim2) <= _involved(v_pre.vehicle_state, v_post.vehicle_state, sim2)
     return False
